@@ -68,7 +68,7 @@ def run(tier, seed, pid=PID):
            'model_graph_states': g['states'], 'model_graph_edges': nedges, 'model_cover_scripts_total': total_scripts, 'model_scripts_run': nmodel,
            'model_edges_replayed': ncov if tier == 'thorough' else 'part (%d of %d cover scripts)' % (nmodel, total_scripts), 'random_scripts': nrand, 'all_day_scripts': nall,
            'spawns_observed': nspawn, 'not_run_spawns_observed': nnorun, 'mismatching_runs': v['nbad'], 'model_drift_runs': ndrift,
-           'e1_constants': 'quick: 2 tasks, occurrence lists {<<1>>,<<1,1>>,<<1,2>>}, limits {unset,1}, clock 0..4, 1 replace/cancel; thorough: 5 lists incl. <<0,3>> and <<1,2,3>>, limits {unset,1,2}, clock 0..6',
+           'e1_constants': 'quick: 2 tasks, occurrence lists {<<1>>,<<1,1>>,<<1,2>>}, limits {unset,1}, clock 0..4, 1 replace/cancel; thorough: 5 lists incl. <<0,3>> and <<1,2,3>>, limits {unset,1,2}, clock 0..5',
            'e1_actions': e1['coverage'], 'exhaustive': tier == 'thorough'}
     if ndrift: cov['model_drift_note'] = 'task table differs from the Echsd.tla state after some step although the contract holds: update the I-model'
     return vlib.finish(pid, tier, seed, 'model_checking', cov, t0, unlisted, listed,
